@@ -17,6 +17,8 @@ import EinoV.Model.C10Share
 import EinoV.Proofs.C10Share
 import EinoV.Model.C10Builtin
 import EinoV.Proofs.C10Builtin
+import EinoV.Model.C10Detach
+import EinoV.Proofs.C10Detach
 import EinoV.Gen.FactsC10
 import EinoV.Expected.C10
 
@@ -24,7 +26,8 @@ namespace EinoV.C10
 open EinoV.Gen
 
 /-- the unit machine's parameters, as extracted from internal/callbacks/inject.go -/
-def genFacts : Facts := ⟨FactsC10.appendHandlersCopies, FactsC10.onCopies, FactsC10.startReversed⟩
+def genFacts : Facts :=
+  ⟨FactsC10.appendHandlersCopies, FactsC10.onCopies, FactsC10.startReversed, FactsC10.initAlwaysInstalls⟩
 
 /-- the compose level's parameters, as extracted from compose/graph_run.go, utils.go, tool_node.go -/
 def genCF : CFacts :=
@@ -55,13 +58,17 @@ theorem facts_match :
     FactsC10.toolCallOwnRunInfo = Expected.C10.toolCallOwnRunInfo ∧
     FactsC10.wrapperOnErrorAlways = Expected.C10.wrapperOnErrorAlways ∧
     FactsC10.toolRunInfoUnconditional = Expected.C10.toolRunInfoUnconditional ∧
-    FactsC10.lambdaNodeOwnsRunnable = Expected.C10.lambdaNodeOwnsRunnable := by
+    FactsC10.lambdaNodeOwnsRunnable = Expected.C10.lambdaNodeOwnsRunnable ∧
+    FactsC10.nilManagerSilent = Expected.C10.nilManagerSilent := by
   decide
 
 /-- `AppendHandlers` copies the inherited slice before appending (source fact) -/
 theorem fact_append_copies : genFacts.appendCopies = true := by decide
 /-- `On` does not append the global handlers to `mgr.handlers` in place (source fact) -/
 theorem fact_on_copies : genFacts.onCopies = true := by decide
+/-- `InitCallbacks` always installs a manager — the nil one when there is nothing to dispatch
+    to — and so overwrites whatever the incoming context carried (source fact) -/
+theorem fact_init_installs : genFacts.initInstalls = true := by decide
 
 /-! ## handler lists -/
 
@@ -73,7 +80,7 @@ theorem handlers_exact (P : Prog) (evs : List Ev) (i p : Nat) (d : UnitDecl)
     (hd : P.units[i]? = some d) (hk : d.kind = .append) (hp : d.parent = some p)
     (hs : List Hd) (hcreated : handlersFor (run genFacts P evs) i = some hs) :
     ∃ inherited, handlersFor (run genFacts P evs) p = some inherited ∧ hs = inherited ++ d.desig := by
-  have inv := inv_run (P := P) fact_append_copies fact_on_copies evs
+  have inv := inv_run (P := P) fact_append_copies fact_on_copies fact_init_installs evs
   unfold handlersFor at hcreated ⊢
   cases hc : (run genFacts P evs).ctxs i with
   | none => simp [hc] at hcreated
@@ -89,7 +96,7 @@ theorem handlers_exact (P : Prog) (evs : List Ev) (i p : Nat) (d : UnitDecl)
 theorem handlers_exact_root (P : Prog) (evs : List Ev) (i : Nat) (d : UnitDecl)
     (hd : P.units[i]? = some d) (hk : d.kind = .append) (hp : d.parent = none)
     (hs : List Hd) (hcreated : handlersFor (run genFacts P evs) i = some hs) : hs = d.desig := by
-  have inv := inv_run (P := P) fact_append_copies fact_on_copies evs
+  have inv := inv_run (P := P) fact_append_copies fact_on_copies fact_init_installs evs
   unfold handlersFor at hcreated
   cases hc : (run genFacts P evs).ctxs i with
   | none => simp [hc] at hcreated
@@ -101,7 +108,7 @@ theorem handlers_exact_reuse (P : Prog) (evs : List Ev) (i p : Nat) (d : UnitDec
     (hd : P.units[i]? = some d) (hk : d.kind = .reuse) (hp : d.parent = some p)
     (hs : List Hd) (hcreated : handlersFor (run genFacts P evs) i = some hs) :
     handlersFor (run genFacts P evs) p = some hs := by
-  have inv := inv_run (P := P) fact_append_copies fact_on_copies evs
+  have inv := inv_run (P := P) fact_append_copies fact_on_copies fact_init_installs evs
   unfold handlersFor at hcreated ⊢
   cases hc : (run genFacts P evs).ctxs i with
   | none => simp [hc] at hcreated
@@ -114,7 +121,7 @@ theorem handlers_exact_reuse (P : Prog) (evs : List Ev) (i p : Nat) (d : UnitDec
 theorem handlers_exact_init (P : Prog) (evs : List Ev) (i : Nat) (d : UnitDecl) (s : Slice)
     (hd : P.units[i]? = some d) (hk : d.kind = .init s)
     (hs : List Hd) (hcreated : handlersFor (run genFacts P evs) i = some hs) : hs = P.arrays.read s := by
-  have inv := inv_run (P := P) fact_append_copies fact_on_copies evs
+  have inv := inv_run (P := P) fact_append_copies fact_on_copies fact_init_installs evs
   unfold handlersFor at hcreated
   cases hc : (run genFacts P evs).ctxs i with
   | none => simp [hc] at hcreated
@@ -126,7 +133,7 @@ theorem handlers_exact_init (P : Prog) (evs : List Ev) (i : Nat) (d : UnitDecl) 
     from the unit tree without any heap). -/
 theorem handlers_static (P : Prog) (evs : List Ev) (i : Nat) (hs : List Hd)
     (hcreated : handlersFor (run genFacts P evs) i = some hs) : hs = spec P i := by
-  have inv := inv_run (P := P) fact_append_copies fact_on_copies evs
+  have inv := inv_run (P := P) fact_append_copies fact_on_copies fact_init_installs evs
   unfold handlersFor at hcreated
   cases hc : (run genFacts P evs).ctxs i with
   | none => simp [hc] at hcreated
@@ -137,7 +144,7 @@ theorem handlers_static (P : Prog) (evs : List Ev) (i : Nat) (hs : List Hd)
 /-- the caller's arrays are never written by the callback machinery -/
 theorem caller_slices_untouched (P : Prog) (evs : List Ev) (s : Slice) (hs : s.arr < P.arrays.length) :
     (run genFacts P evs).heap.read s = P.arrays.read s := by
-  obtain ⟨ext, hext⟩ := (inv_run (P := P) fact_append_copies fact_on_copies evs).heapPre
+  obtain ⟨ext, hext⟩ := (inv_run (P := P) fact_append_copies fact_on_copies fact_init_installs evs).heapPre
   rw [hext, read_prefix _ _ _ hs]
 
 /-! ## dispatch -/
@@ -150,7 +157,7 @@ theorem unit_trace (P : Prog) (evs : List Ev) (i : Nat) :
     projLog (run genFacts P evs).log i =
       render genFacts.startReversed i (unitInfo P i) (spec P i ++ P.globals)
         ((unitProg P i).take ((run genFacts P evs).pc i)) :=
-  (inv_run (P := P) fact_append_copies fact_on_copies evs).log i
+  (inv_run (P := P) fact_append_copies fact_on_copies fact_init_installs evs).log i
 
 /-- **no_cross_node.** Every callback that is ever delivered goes to a handler of the
     delivering unit's own list (or a global one), with that unit's run info and a timing the
@@ -495,6 +502,88 @@ theorem builtin_started_implies_finished_once (sh : BShape) (c : Case) (hc : c.u
   rw [hk] at hprog
   exact paired_unit_finished_once _ evs _ s e hprog hs he hfin h hall
 
+/-! ## work that user code inside a node detaches from the run's callback context -/
+
+/-- **detached_context_overwrites.** A context made with `callbacks.InitCallbacks(ctx, info, s...)`
+    — whatever `ctx` is: a fresh context or the context of a unit of the run (`d.parent`), whatever
+    handlers and run info that context carries, in every interleaving — has exactly the handlers
+    `s` (none, if none were passed) and every event fired under it carries `info`. -/
+theorem detached_context_overwrites (P : Prog) (evs : List Ev) (i : Nat) (d : UnitDecl) (s : Slice)
+    (hd : P.units[i]? = some d) (hk : d.kind = .init s) :
+    (∀ hs, handlersFor (run genFacts P evs) i = some hs → hs = P.arrays.read s) ∧
+    (∀ e ∈ (run genFacts P evs).log, e.unit = i → e.info = d.info ∧ (e.h ∈ P.arrays.read s ∨ e.h ∈ P.globals)) := by
+  refine ⟨fun hs hc => handlers_exact_init P evs i d s hd hk hs hc, ?_⟩
+  intro e he hu
+  obtain ⟨h1, h2, _, _⟩ := no_cross_node P evs e he
+  rw [hu] at h1 h2
+  rw [spec_init hd hk, List.mem_append] at h1
+  exact ⟨by rw [h2]; exact unitInfo_of hd, h1⟩
+
+/-- **no_leak_below_detached.** "A handler attached to one node is never invoked for [work
+    detached from it]": let `i` be a context made with `InitCallbacks` (zero handlers or its own
+    handlers `s`) on top of ANY context of the run, and `j` any unit below it — `i` itself, a
+    `ReuseHandlers` context, an inner graph invoked under it, that graph's nodes and tool calls, to
+    any depth.  A handler `h` that is not among `s`, not global, and not attached at one of the
+    steps below `i` (e.g. a handler designated to the surrounding node, or passed to the outer
+    call) is never invoked for `j`, in any interleaving of all units of the run. -/
+theorem no_leak_below_detached (P : Prog) (evs : List Ev) (i : Nat) (d : UnitDecl) (s : Slice)
+    (hd : P.units[i]? = some d) (hk : d.kind = .init s) (j : Nat) (hb : Below P i j) (h : Hd)
+    (hnotOwn : h ∉ P.arrays.read s) (hnotGlobal : h ∉ P.globals)
+    (hnotInside : ∀ k dk, Below P i k → P.units[k]? = some dk → dk.kind = .append → h ∉ dk.desig) :
+    ∀ e ∈ (run genFacts P evs).log, e.unit = j → e.h ≠ h := by
+  intro e he hu hh
+  have h1 := (no_cross_node P evs e he).1
+  rw [hu, hh, List.mem_append] at h1
+  rcases h1 with h1 | h1
+  · rcases spec_below_init hd hk hb h h1 with h2 | ⟨k, dk, hbk, _, hdk, hkk, hin⟩
+    · exact hnotOwn h2
+    · exact hnotInside k dk hbk hdk hkk hin
+  · exact hnotGlobal h1
+
+/-- a context made with `InitCallbacks(ctx, info)` — no handlers — in a process without global
+    handlers is silent: no handler at all is invoked for what is fired under it -/
+theorem detached_without_handlers_is_silent (P : Prog) (evs : List Ev) (i : Nat) (d : UnitDecl) (s : Slice)
+    (hd : P.units[i]? = some d) (hk : d.kind = .init s) (hempty : P.arrays.read s = []) (hg : P.globals = []) :
+    projLog (run genFacts P evs).log i = [] := by
+  rw [unit_trace, spec_init hd hk, hempty, hg, List.append_nil]
+  generalize (unitProg P i).take ((run genFacts P evs).pc i) = ts
+  induction ts with
+  | nil => rfl
+  | cons t ts ih => simp [render, dispatch, ih]
+
+/-- **run_units_once_whatever_nodes_detach.** In a run whose nodes derive contexts with
+    `InitCallbacks` (without / with handlers of their own) and `ReuseHandlers` in any chain and fire
+    callbacks, run self-firing components or invoke inner graphs under them (`sh`: any number of
+    nodes, work items and derivations), every unit of the run itself — the called graph, each node,
+    `join` — delivers to every handler of its own list that filters nothing exactly as many start
+    callbacks as the handler occurs in the list (one, if passed once) and exactly as many
+    finishing callbacks, in every interleaving with everything else, detached work included:
+    nothing fired under a derived context is reported as the node's. -/
+theorem run_units_once_whatever_nodes_detach (globals : List Hd) (userInit : Option (List Hd × Nat))
+    (opts : List Opt) (sh : DShape) (evs : List Ev) (k : Nat) (u : UnitSpec) (hu : (dBaseUnits sh)[k]? = some u)
+    (h : Hd) (hall : h.mask = none) :
+    let P := detProg genCF globals userInit opts sh
+    let i := k + (if userInit.isSome then 1 else 0)
+    (run genFacts P evs).pc i = 2 →
+    countStart (run genFacts P evs).log i h = (spec P i ++ P.globals).count h ∧
+    countFinish (run genFacts P evs).log i h = (spec P i ++ P.globals).count h := by
+  intro P i hfin
+  have hprog := unitProg_detProg genCF globals userInit opts sh k u hu
+  have hnotSelf : ∀ own, u.kind ≠ .self own := by
+    have hm := List.mem_of_getElem? hu
+    simp only [dBaseUnits, List.mem_cons, List.mem_append, List.mem_map] at hm
+    rcases hm with rfl | ⟨n, _, rfl⟩ | hj
+    · intro own hc; cases hc
+    · intro own hc; cases hc
+    · split at hj
+      · simp at hj
+      · simp only [List.mem_singleton] at hj
+        subst hj
+        intro own hc; cases hc
+  obtain ⟨s, e, hk, hs, he⟩ := framework_prog_shape u.kind hnotSelf
+  rw [hk] at hprog
+  exact paired_unit_finished_once P evs i s e hprog hs he hfin h hall
+
 /-! ## stream payload copies -/
 
 /-- each handler gets its own copy and the flow continues with yet another one -/
@@ -536,7 +625,7 @@ example : spec exProg 1 = [h 1, h 2, h 3, h 4] := by
       spec_init (d := ⟨none, .init ⟨2, 0, 3, 4⟩, [], "g", [.start, .end_]⟩) (s := ⟨2, 0, 3, 4⟩) (by rfl) rfl]
   decide
 /-- the interleaving A.init, B.init, A.start, B.start, A.end, B.error completes both nodes -/
-example : let st := run ⟨true, true, true⟩ exProg [.mk 0, .step 0, .mk 1, .mk 2, .step 1, .step 2, .step 1, .step 2]
+example : let st := run ⟨true, true, true, true⟩ exProg [.mk 0, .step 0, .mk 1, .mk 2, .step 1, .step 2, .step 1, .step 2]
     st.pc 1 = 2 ∧ st.pc 2 = 2 ∧
     handlersFor st 1 = some [h 1, h 2, h 3, h 4] ∧ handlersFor st 2 = some [h 1, h 2, h 3, ⟨5, some 3⟩] ∧
     (projLog st.log 2).map (fun e => (e.h.id, e.t)) =
@@ -551,14 +640,14 @@ example : let st := run ⟨true, true, true⟩ exProg [.mk 0, .step 0, .mk 1, .m
     up with the other node's handler in its list … -/
 theorem cross_node_with_inplace_append :
     ∀ evs ∈ [[Ev.mk 0, .mk 1, .mk 2], [Ev.mk 0, .mk 2, .mk 1]],
-      handlersFor (run ⟨false, false, true⟩ exProg evs) 1 ≠ some [h 1, h 2, h 3, h 4] ∨
-      handlersFor (run ⟨false, false, true⟩ exProg evs) 2 ≠ some [h 1, h 2, h 3, ⟨5, some 3⟩] := by
+      handlersFor (run ⟨false, false, true, true⟩ exProg evs) 1 ≠ some [h 1, h 2, h 3, h 4] ∨
+      handlersFor (run ⟨false, false, true, true⟩ exProg evs) 2 ≠ some [h 1, h 2, h 3, ⟨5, some 3⟩] := by
   decide
 
 /-- … and the handler designated to node A only is delivered with node B's run info. -/
 theorem cross_node_event_with_inplace_append :
     (⟨2, "B", h 4, .start⟩ : LogEv) ∈
-      (run ⟨false, false, true⟩ exProg [.mk 0, .step 0, .mk 2, .mk 1, .step 1, .step 2]).log := by
+      (run ⟨false, false, true, true⟩ exProg [.mk 0, .step 0, .mk 2, .mk 1, .step 1, .step 2]).log := by
   decide
 
 /-- `On` appending the global handlers to `mgr.handlers` in place (`onCopies = false`), even
@@ -568,7 +657,7 @@ theorem cross_node_event_with_inplace_append :
 theorem caller_slice_scribbled_with_inplace_on :
     let P : Prog := ⟨[[h 1, h 2, h 3, h 4]], [h 9],
       [⟨none, .init ⟨0, 0, 3, 4⟩, [], "u0", [.start]⟩, ⟨none, .init ⟨0, 0, 4, 4⟩, [], "u1", [.start]⟩]⟩
-    let st := run ⟨true, false, true⟩ P [.mk 0, .mk 1, .step 0, .step 1]
+    let st := run ⟨true, false, true, true⟩ P [.mk 0, .mk 1, .step 0, .step 1]
     handlersFor st 1 = some [h 1, h 2, h 3, h 9] ∧
     (projLog st.log 1).map (fun e => e.h.id) = [9, 9, 3, 2, 1] := by
   decide
@@ -590,20 +679,20 @@ theorem interrupt_unpaired_on_machine :
     let c : Case := { toolCase with units := [⟨[], false, "g", .graph false .lateErr, true⟩,
                                               ⟨["A"], false, "A", .wrapped false .intr, false⟩] }
     let P := progOf ⟨true, true, false, true⟩ c
-    (projLog (run ⟨true, true, true⟩ P (seqSchedule P)).log 1).map (fun e => (e.h.id, e.t)) = [(1, .start)] := by
+    (projLog (run ⟨true, true, true, true⟩ P (seqSchedule P)).log 1).map (fun e => (e.h.id, e.t)) = [(1, .start)] := by
   decide
 
 /-- **Tool calls made in the ToolsNode's own context** (`toolRunInfoUnconditional = false`): the
     callbacks a callback-enabled tool fires are delivered with the ToolsNode's RunInfo. -/
 theorem tool_fires_under_toolsnode_info_when_conditional :
     let P := progOf ⟨true, true, true, false⟩ toolCase
-    (⟨2, "T", h 1, .start⟩ : LogEv) ∈ (run ⟨true, true, true⟩ P (seqSchedule P)).log ∧
-    ∀ e ∈ (run ⟨true, true, true⟩ P (seqSchedule P)).log, e.info ≠ "t" := by
+    (⟨2, "T", h 1, .start⟩ : LogEv) ∈ (run ⟨true, true, true, true⟩ P (seqSchedule P)).log ∧
+    ∀ e ∈ (run ⟨true, true, true, true⟩ P (seqSchedule P)).log, e.info ≠ "t" := by
   decide
 
 /-- with the facts of the source the same tool's callbacks carry its own RunInfo -/
 example : let P := progOf ⟨true, true, true, true⟩ toolCase
-    (projLog (run ⟨true, true, true⟩ P (seqSchedule P)).log 2).map (fun e => (e.info, e.t)) =
+    (projLog (run ⟨true, true, true, true⟩ P (seqSchedule P)).log 2).map (fun e => (e.info, e.t)) =
       [("t", .start), ("t", .end_)] := by decide
 
 /-- non-vacuity of `run_units_paired`: a lambda that interrupts next to a ToolsNode one of whose
@@ -660,7 +749,7 @@ theorem template_error_unreported_on_machine :
     let c : Case := { globals := [], userInit := none, opts := [⟨[h 1], []⟩],
                       units := bUnits { BFacts.good with tplErrDeferred := false } builtinShape }
     let P := progOf ⟨true, true, true, true⟩ c
-    (projLog (run ⟨true, true, true⟩ P (seqSchedule P)).log 1).map (fun e => (e.info, e.h.id, e.t)) =
+    (projLog (run ⟨true, true, true, true⟩ P (seqSchedule P)).log 1).map (fun e => (e.info, e.h.id, e.t)) =
       [("n:A|Default|ChatTemplate", 1, .start)] := by
   decide
 
@@ -696,6 +785,34 @@ example : (bUnits BFacts.good ⟨false, [.node (.router "R" ⟨.dflt, [("RA", .o
     [("G||Graph", [.start, .end_]), ("n:R|Router|Retriever", [.start, .end_]),
      ("RouterLambda|Router|Lambda", [.start, .end_]), ("RARetriever|RA|Retriever", [.start, .end_]),
      ("FusionFuncLambda|FusionFunc|Lambda", [.start, .end_]), ("n:join|Li|Lambda", [.start, .end_])] := by decide
+
+/-- a node `A` that detaches a piece of work with `callbacks.InitCallbacks(ctx, info)` and fires
+    start / end under the detached context, and then invokes a compiled inner graph under a second
+    detached context; a handler `h 1` passed to the outer call and `h 2` designated to `A` -/
+def detShape : DShape :=
+  ⟨false, [⟨"A", false, [⟨[.init0], .fire false⟩, ⟨[.init0], .graph [] false⟩]⟩]⟩
+
+def detProgDemo : Prog := detProg ⟨true, true, true, true⟩ [] none [⟨[h 1], []⟩, ⟨[h 2], [["A"]]⟩] detShape
+
+/-- with the facts of the source: the node is reported once (start, end) to both handlers, and
+    nothing of the detached work reaches them -/
+example : let P := detProgDemo
+    (run ⟨true, true, true, true⟩ P (seqSchedule P)).log.map (fun e => (e.info, e.h.id, e.t)) =
+      [("G||Graph", 1, .start), ("G||Graph", 1, .end_),
+       ("n:A|Li|Lambda", 2, .start), ("n:A|Li|Lambda", 1, .start), ("n:A|Li|Lambda", 1, .end_), ("n:A|Li|Lambda", 2, .end_),
+       ("n:join|Li|Lambda", 1, .start), ("n:join|Li|Lambda", 1, .end_)] := by decide
+
+/-- **`InitCallbacks` that returns the context untouched when there is nothing to install**
+    (`initInstalls = false`): the detached work of node `A` is delivered to the run's handlers — also
+    to the handler designated to `A` — under `A`'s own run info (a second start and a second end of
+    the node), and the handler designated to `A` is invoked for the inner graph and its node. -/
+theorem node_handlers_hear_detached_work_when_init_keeps_ctx :
+    let P := detProgDemo
+    let log := (run ⟨true, true, true, false⟩ P (seqSchedule P)).log
+    (projLog log 3).map (fun e => (e.info, e.h.id, e.t)) =
+      [("n:A|Li|Lambda", 2, .start), ("n:A|Li|Lambda", 1, .start), ("n:A|Li|Lambda", 1, .end_), ("n:A|Li|Lambda", 2, .end_)] ∧
+    (⟨5, "ig:A.1||Graph", h 2, .start⟩ : LogEv) ∈ log ∧ (⟨6, "is:A.1|Li|Lambda", h 2, .start⟩ : LogEv) ∈ log := by
+  decide
 
 /-- without the deferred block a failing run never reports its end;
     with a deferred block that does not check `haveOnStart` an early error return has no start -/
